@@ -57,7 +57,7 @@ def run_pass(ctx, runs):
              "untouched": b["init"] == a["init"] and b["guard"] == a["guard"]}
         seen[key] = c
         cases.append(c)
-    probe = lib.run_tasks([{"kind": "capture_probe", "which": "ma", "timeout": 60}], timeout=60, jobs=1)[0]
+    probe = U.capture_probe(ctx, lib, "ma")
     pcase = _probe_case(probe)
     U.run_cases(ctx, lib, "pma", cases + ([pcase] if pcase else []))
     mism = []
